@@ -181,7 +181,7 @@ func init() {
 		Rule: "three seeded classes: (client) raw requests with arbitrary method, path (incl. invalid escapes, huge, REST and RPC paths), query, content-type, control-header garbage and body bytes (random, truncated envelopes, arbitrary declared lengths, JSON bombs) " +
 			"against a transcoder with REST-bound, RPC-only and dynamic services, with and without an unknown-endpoint handler; (backend) well-formed clients against backends that break their protocol in every scripted way " +
 			"(any status, garbage headers, numeric grpc-status of any size, random body, any flag byte and length, wrong Content-Length, early return, panic before/after headers/mid-body, I/O after return); (both) the two combined with transport faults " +
-			"(cut, connection error, client gone, context cancelled). oracle: no panic escapes ServeHTTP, quiescence-based termination, at most one response head, body consistent with declared Content-Length and status. " +
+			"(cut, connection error, client gone, context cancelled); in a fifth of all runs the k-th codec or (de)compressor call made for the RPC fails. oracle: no panic escapes ServeHTTP, quiescence-based termination, at most one response head, body consistent with declared Content-Length and status. " +
 			"distinct = (class, form, dispatched?, backend misbehaviour kind, schedule hash); non-trivial = the request reached ServeHTTP",
 		Gen: func(c *Chooser, tier string) *Plan {
 			var p *Plan
@@ -218,6 +218,10 @@ func init() {
 						rc.ExtraHdrs = append(rc.ExtraHdrs, [2]string{"Grpc-Timeout", "1x"})
 					}
 				}
+			}
+			if c.Prob(0.2) {
+				// the library under the transcoder fails: the k-th codec or (de)compressor call of this RPC returns an error
+				p.RPCs[0].LibFaults = []Fault{{Kind: Pick(c, "marshal", "unmarshal", "comp.write", "comp.close", "decomp.reset", "decomp.read", "decomp.close"), At: c.Range(1, 4)}}
 			}
 			p.Note = kind
 			p.StepCap = 60000
